@@ -346,6 +346,21 @@ def run(ctx):
                 s0 = fmt(ir.unwrap(e["expr"]))
                 if pn in s0:
                     stores.append((None, s0))
+        # a delegating constructor: the copy of the diagnostic is made in the argument list and the target constructor moves it into dlerror_
+        if not stores:
+            for _, _, e in f.all_elems():
+                x0 = ir.unwrap(e.get("expr")) if e.get("expr") is not None else None
+                if isinstance(x0, dict) and x0.get("k") == "construct" and x0.get("ctor") and x0["ctor"] != f.id:
+                    g = prog.fn(x0["ctor"])
+                    if g is None or g.cls != f.cls or not g.has_cfg:
+                        continue
+                    for _, _, e2 in g.all_elems():
+                        if e2["kind"] == "init" and short(e2.get("field") or "") == "dlerror_" and e2.get("expr") is not None:
+                            src2 = [y["decl"][6:] for y in walk(e2["expr"]) if isinstance(y, dict) and y.get("k") == "ref" and str(y.get("decl", "")).startswith("param:")]
+                            names2 = [p0["name"] for p0 in g.params]
+                            for s2 in src2:
+                                if s2 in names2 and names2.index(s2) < len(x0.get("args", [])):
+                                    stores.append((None, fmt(ir.unwrap(x0["args"][names2.index(s2)]))))
         ok = any(re.search(r"basic_string\{%s(, allocator\{\})?\}" % pn, s0) for _, s0 in stores)
         ctx.check(ok, "R19.6", f, "stores-diagnostic", "dl::exception does not store the loader's diagnostic (stores: %s)" % stores, f)
         rets = [g for g in prog.methods_of(DL_EXC) if g.name == "dlerror" and g.has_cfg]
